@@ -286,6 +286,9 @@ func CompareHistory(u *probe.Unit, exp []Expect, skipTainted bool) (mm []Mismatc
 		e := exp[i]
 		op := u.Ops[i]
 		label := fmt.Sprintf("op %d %s %s", i, op.Op, op.Name)
+		if op.Op == "new" {
+			co, ce = ref.NewCanon(), ref.NewCanon() // a fresh container: instance numbering starts over
+		}
 		if r.Died {
 			mm = append(mm, Mismatch{i, "died", label + ": probe process ended: " + r.Panic})
 			return
@@ -354,8 +357,15 @@ func CompareHistory(u *probe.Unit, exp []Expect, skipTainted bool) (mm []Mismatc
 			if r.Val != nil && op.Op != "getter" && op.Op != "getterctx" {
 				mm = append(mm, Mismatch{i, "error-with-value", fmt.Sprintf("%s: error %q came together with a value %s", label, r.Err, ref.JSON(r.Val))})
 			}
+			text := r.Err
+			if e.Err.Token != "" {
+				if !strings.Contains(r.Err, e.Err.Token) {
+					mm = append(mm, Mismatch{i, "error-token", fmt.Sprintf("%s: error %q does not name the token %q", label, r.Err, e.Err.Token)})
+				}
+				text = strings.ReplaceAll(r.Err, e.Err.Token, "")
+			}
 			for _, s := range e.Err.Contains {
-				if !strings.Contains(r.Err, s) {
+				if !strings.Contains(text, s) {
 					mm = append(mm, Mismatch{i, "error-text", fmt.Sprintf("%s: error %q does not mention %q (%s)", label, r.Err, s, e.Err.Why)})
 				}
 			}
